@@ -1,7 +1,10 @@
-(* IgnoreWitness.v — concrete witnesses for the two open findings of C14 (F12, F13).
-   The documents below are the token lists the pinned implementation produces (dumped by
+(* IgnoreWitness.v — concrete documents for C14: the witnesses of the findings F12, F13, F13e and C16-N1 that
+   the fix commits 8948350, 4550195 and 483b7cf repaired (now regression inputs: the current context
+   handles each of them as the property asks; History/C14History.v shows that the old context did not),
+   and the witness of the one finding that is still open, F13d (the context is ONE flat token list).
+   The documents below are the token lists the implementation produces (dumped by
    harness/src/bin/c14.rs from the real Document; regenerate with tools/c14_witness.py <name> < one X case line, from the
-   X case lines of corpus/C14/01_findings.json).  Word metadata / punctuation variants are opaque codes.
+   X case lines of corpus/C14/*.json).  Word metadata / punctuation variants are opaque codes.
    The same inputs are replayed on the implementation by the corpus on every run. *)
 Require Import Base Suggestion Ignore ListLemmas IgnoreProofs.
 
@@ -137,6 +140,45 @@ Definition f13e_d2 : doc := mkdoc [72; 101; 32; 119; 104; 101; 110; 32; 111; 108
      mktok (mkspan 52 56) (KWord (Some 1688396514478611654%N));
      mktok (mkspan 56 57) (KPunct 1573820018010711441%N)].
 
+
+(* F13d (open): the text x, two newlines, y, space, quotation mark, z — two synthetic lints of the same
+   report over (y, space) and (space, quotation mark) *)
+Definition flat_l1 : ilint := mkilint (mkspan 3 5) 7%N [Remove] [109]%N 7%N.
+Definition flat_l2 : ilint := mkilint (mkspan 4 6) 7%N [Remove] [109]%N 7%N.
+Definition flat_d : doc := mkdoc [120; 10; 10; 121; 32; 34; 122]%N
+    [mktok (mkspan 0 1) (KWord (Some 2606840899236407686%N));
+     mktok (mkspan 1 3) (KParagraphBreak);
+     mktok (mkspan 3 4) (KWord (Some 4242379009418909885%N));
+     mktok (mkspan 4 5) (KSpace 1);
+     mktok (mkspan 5 6) (KQuote None);
+     mktok (mkspan 6 7) (KWord (Some 4354040075787618681%N))].
+
+(* C16-N1: I zorgle an problem here.   parsed with the curated dictionary, and again after `zorgle` was
+   added to a user dictionary (lint: an -> a) *)
+Definition dict_l : ilint := mkilint (mkspan 9 11) 8%N [ReplaceWith [97]%N] [73; 110; 99; 111; 114; 114; 101; 99; 116; 32; 105; 110; 100; 101; 102; 105; 110; 105; 116; 101; 32; 97; 114; 116; 105; 99; 108; 101; 46]%N 31%N.
+Definition dict_d1 : doc := mkdoc [73; 32; 122; 111; 114; 103; 108; 101; 32; 97; 110; 32; 112; 114; 111; 98; 108; 101; 109; 32; 104; 101; 114; 101; 46]%N
+    [mktok (mkspan 0 1) (KWord (Some 1308034266349559849%N));
+     mktok (mkspan 1 2) (KSpace 1);
+     mktok (mkspan 2 8) (KWord None);
+     mktok (mkspan 8 9) (KSpace 1);
+     mktok (mkspan 9 11) (KWord (Some 4480837693804025992%N));
+     mktok (mkspan 11 12) (KSpace 1);
+     mktok (mkspan 12 19) (KWord (Some 4505715797009193009%N));
+     mktok (mkspan 19 20) (KSpace 1);
+     mktok (mkspan 20 24) (KWord (Some 733180268355334201%N));
+     mktok (mkspan 24 25) (KPunct 1573820018010711441%N)].
+Definition dict_d2 : doc := mkdoc [73; 32; 122; 111; 114; 103; 108; 101; 32; 97; 110; 32; 112; 114; 111; 98; 108; 101; 109; 32; 104; 101; 114; 101; 46]%N
+    [mktok (mkspan 0 1) (KWord (Some 1308034266349559849%N));
+     mktok (mkspan 1 2) (KSpace 1);
+     mktok (mkspan 2 8) (KWord (Some 4549724205062989871%N));
+     mktok (mkspan 8 9) (KSpace 1);
+     mktok (mkspan 9 11) (KWord (Some 4480837693804025992%N));
+     mktok (mkspan 11 12) (KSpace 1);
+     mktok (mkspan 12 19) (KWord (Some 4505715797009193009%N));
+     mktok (mkspan 19 20) (KSpace 1);
+     mktok (mkspan 20 24) (KWord (Some 733180268355334201%N));
+     mktok (mkspan 24 25) (KPunct 1573820018010711441%N)].
+
 Definition doc_wfb (d : doc) : bool := forallb (fun t => span_inb (length (dsrc d)) (tspan t)) (dtoks d).
 Lemma doc_wfb_spec d : doc_wfb d = true -> doc_wf d.
 Proof.
@@ -183,79 +225,6 @@ Proof.
   - specialize (Hst _ [] l d l' d' s1 [] s1 Hd Hd' Hu E1 eq_refl). congruence.
 Qed.
 
-(* ---------- F12 ---------- *)
-Lemma f12_wf : doc_wf f12_d1 /\ doc_wf f12_d2.
-Proof. split; apply doc_wfb_spec; vm_compute; reflexivity. Qed.
-Lemma f12_untouched : untouched f12_l1 f12_d1 f12_l2 f12_d2.
-Proof.
-  split; [repeat split|]. eexists. split; vm_compute; reflexivity.
-Qed.
-(* the edit is a pure prepend of 13 characters / 5 tokens; the lint is the same lint, 13 further on *)
-Lemma f12_is_prepend :
-  f12_l2 = shift_lint 13 f12_l1 /\ skipn 13 (dsrc f12_d2) = dsrc f12_d1 /\
-  map tspan (skipn 5 (dtoks f12_d2)) = map (fun t => shift_span 13 (tspan t)) (dtoks f12_d1) /\
-  map (fun t => blank_kind (tkd t)) (skipn 5 (dtoks f12_d2)) = map (fun t => blank_kind (tkd t)) (dtoks f12_d1).
-Proof. repeat split; vm_compute; reflexivity. Qed.
-Lemma f12_contexts_differ : context f12_l1 f12_d1 <> context f12_l2 f12_d2.
-Proof. apply res_ctx_neq; vm_compute; reflexivity. Qed.
-(* ... and differ in nothing but twin_loc *)
-Lemma f12_only_twin_loc : context_f12 f12_l1 f12_d1 = context_f12 f12_l2 f12_d2.
-Proof. vm_compute. reflexivity. Qed.
-
-Theorem stable_refuted_F12 :
-  exists l d l' d',
-    doc_wf d /\ doc_wf d' /\ untouched l d l' d' /\
-    (exists k, l' = shift_lint k l /\ skipn k (dsrc d') = dsrc d) /\          (* text prepended, nothing else *)
-    context_f12 l d = context_f12 l' d' /\                                     (* differ only in twin_loc *)
-    exists c c', context l d = Ok c /\ context l' d' = Ok c' /\ c <> c' /\
-      forall hash : ctx -> N, hash c <> hash c' ->
-        exists s1, ignore_lint context hash [] l d = Ok s1 /\ is_ignored context hash s1 l' d' = Ok false.
-Proof.
-  exists f12_l1, f12_d1, f12_l2, f12_d2.
-  split; [apply f12_wf|]. split; [apply f12_wf|]. split; [apply f12_untouched|].
-  split; [exists 13; split; apply f12_is_prepend|]. split; [apply f12_only_twin_loc|].
-  apply refutes; [apply f12_contexts_differ | vm_compute; reflexivity | vm_compute; reflexivity].
-Qed.
-
-(* ---------- F13, stability direction ---------- *)
-Lemma f13s_wf : doc_wf f13s_d1 /\ doc_wf f13s_d2.
-Proof. split; apply doc_wfb_spec; vm_compute; reflexivity. Qed.
-Lemma f13s_untouched : untouched f13s_l1 f13s_d1 f13s_l2 f13s_d2.
-Proof. split; [repeat split|]. eexists. split; vm_compute; reflexivity. Qed.
-Lemma f13s_contexts_differ : context f13s_l1 f13s_d1 <> context f13s_l2 f13s_d2.
-Proof. apply res_ctx_neq; vm_compute; reflexivity. Qed.
-(* blanking twin_loc (F12's repair alone) does not help *)
-Lemma f13s_contexts_differ_f12 : context_f12 f13s_l1 f13s_d1 <> context_f12 f13s_l2 f13s_d2.
-Proof. apply res_ctx_neq; vm_compute; reflexivity. Qed.
-
-Theorem stable_refuted_F13 :
-  exists l d l' d',
-    doc_wf d /\ doc_wf d' /\ untouched l d l' d' /\ il_span l' = il_span l /\
-    span_len_wf (il_span l) = 1 /\                                            (* a one-character lint *)
-    no_quote (match nb_tokens l d with Ok w => w | Panic _ => [] end) /\       (* not F12's class *)
-    context_f12 l d <> context_f12 l' d' /\
-    exists c c', context l d = Ok c /\ context l' d' = Ok c' /\ c <> c' /\
-      forall hash : ctx -> N, hash c <> hash c' ->
-        exists s1, ignore_lint context hash [] l d = Ok s1 /\ is_ignored context hash s1 l' d' = Ok false.
-Proof.
-  exists f13s_l1, f13s_d1, f13s_l2, f13s_d2.
-  split; [apply f13s_wf|]. split; [apply f13s_wf|]. split; [apply f13s_untouched|].
-  split; [reflexivity|]. split; [reflexivity|].
-  split; [vm_compute; repeat constructor; intros t; discriminate|].
-  split; [apply f13s_contexts_differ_f12|].
-  apply refutes; [apply f13s_contexts_differ | vm_compute; reflexivity | vm_compute; reflexivity].
-Qed.
-
-Theorem stays_ignored_refuted : ~ stays_ignored context /\ ~ stays_ignored context_f12.
-Proof.
-  split.
-  - apply (not_stays_ignored context f12_l1 f12_d1 f12_l2 f12_d2);
-      [apply f12_wf | apply f12_wf | apply f12_untouched | apply f12_contexts_differ | vm_compute; reflexivity | vm_compute; reflexivity].
-  - apply (not_stays_ignored context_f12 f13s_l1 f13s_d1 f13s_l2 f13s_d2);
-      [apply f13s_wf | apply f13s_wf | apply f13s_untouched | apply f13s_contexts_differ_f12 | vm_compute; reflexivity | vm_compute; reflexivity].
-Qed.
-
-(* ---------- F13, "only that lint" direction ---------- *)
 Definition res_toks_eqb (a b : res (list ftok)) : bool :=
   match a, b with Ok x, Ok y => list_eqb ftok_eqb x y | _, _ => false end.
 Lemma res_toks_neq a b : res_toks_eqb a b = false -> is_ok a = true -> is_ok b = true -> a <> b.
@@ -264,71 +233,90 @@ Proof.
   assert (list_eqb ftok_eqb y y = true) by (apply (list_eqb_spec ftok_eqb ftok_eqb_spec); reflexivity). congruence.
 Qed.
 
-(* two lints of ONE document that differ in their surrounding words (a space and `it` follow the first,
-   a period follows the second) have the same context: ignoring the first hides the second, whatever
-   the hash function — the sequel window [s+2,s+4) lies inside the seven-character flagged word *)
-Theorem only_refuted_F13 :
+(* ---------- the repaired findings: the current context treats every witness as the property asks ---------- *)
+Lemma f12_wf : doc_wf f12_d1 /\ doc_wf f12_d2.
+Proof. split; apply doc_wfb_spec; vm_compute; reflexivity. Qed.
+Lemma f12_untouched : untouched f12_l1 f12_d1 f12_l2 f12_d2.
+Proof. split; [repeat split|]. eexists. split; vm_compute; reflexivity. Qed.
+(* the edit is a pure prepend of 13 characters / 5 tokens; the lint is the same lint, 13 further on *)
+Lemma f12_is_prepend :
+  f12_l2 = shift_lint 13 f12_l1 /\ skipn 13 (dsrc f12_d2) = dsrc f12_d1 /\
+  map tspan (skipn 5 (dtoks f12_d2)) = map (fun t => shift_span 13 (tspan t)) (dtoks f12_d1) /\
+  map (fun t => blank_kind (tkd t)) (skipn 5 (dtoks f12_d2)) = map (fun t => blank_kind (tkd t)) (dtoks f12_d1).
+Proof. repeat split; vm_compute; reflexivity. Qed.
+Lemma f12_same : context f12_l1 f12_d1 = context f12_l2 f12_d2.
+Proof. vm_compute. reflexivity. Qed.
+
+Lemma f13s_wf : doc_wf f13s_d1 /\ doc_wf f13s_d2.
+Proof. split; apply doc_wfb_spec; vm_compute; reflexivity. Qed.
+Lemma f13s_untouched : untouched f13s_l1 f13s_d1 f13s_l2 f13s_d2.
+Proof. split; [repeat split|]. eexists. split; vm_compute; reflexivity. Qed.
+Lemma f13s_same : context f13s_l1 f13s_d1 = context f13s_l2 f13s_d2.
+Proof. vm_compute. reflexivity. Qed.
+
+Lemma f13e_wf : doc_wf f13e_d1 /\ doc_wf f13e_d2.
+Proof. split; apply doc_wfb_spec; vm_compute; reflexivity. Qed.
+Lemma f13e_untouched : untouched f13e_l1 f13e_d1 f13e_l2 f13e_d2.
+Proof. split; [repeat split|]. eexists. split; vm_compute; reflexivity. Qed.
+Lemma f13e_same : context f13e_l1 f13e_d1 = context f13e_l2 f13e_d2.
+Proof. vm_compute. reflexivity. Qed.
+
+(* the two `recieve` lints (different followers) are told apart *)
+Lemma f13o_wf : doc_wf f13o_d1.
+Proof. apply doc_wfb_spec; vm_compute; reflexivity. Qed.
+Lemma f13o_differ : context f13o_l1 f13o_d1 <> context f13o_l2 f13o_d1.
+Proof. apply res_ctx_neq; vm_compute; reflexivity. Qed.
+
+(* the same text under the two dictionaries: different documents, the same context *)
+Lemma dict_wf : doc_wf dict_d1 /\ doc_wf dict_d2.
+Proof. split; apply doc_wfb_spec; vm_compute; reflexivity. Qed.
+Lemma dict_docs_differ : dict_d1 <> dict_d2.
+Proof. intros E. apply (f_equal (fun d => map tkd (dtoks d))) in E. vm_compute in E. discriminate E. Qed.
+Lemma dict_same_blank : blank_doc dict_d1 = blank_doc dict_d2.
+Proof. vm_compute. reflexivity. Qed.
+Lemma dict_same : context dict_l dict_d1 = context dict_l dict_d2.
+Proof. apply same_blank_doc_same_context, dict_same_blank. Qed.
+
+(* ---------- F13d (open): the context is one flat list ---------- *)
+Definition res_parts_eqb (a b : res (list ftok * list ftok * list ftok)) : bool :=
+  match a, b with
+  | Ok (b1, p1, a1), Ok (b2, p2, a2) => list_eqb ftok_eqb b1 b2 && list_eqb ftok_eqb p1 p2 && list_eqb ftok_eqb a1 a2
+  | _, _ => false
+  end.
+Lemma res_parts_neq a b : res_parts_eqb a b = false -> is_ok a = true -> is_ok b = true -> a <> b.
+Proof.
+  destruct a as [[[b1 p1] a1]|], b as [[[b2 p2] a2]|]; cbn; try discriminate. intros H _ _ E. inversion E. subst.
+  assert (forall x, list_eqb ftok_eqb x x = true) as R by (intros x; apply (list_eqb_spec ftok_eqb ftok_eqb_spec); reflexivity).
+  rewrite !R in H. discriminate H.
+Qed.
+
+(* two lints of ONE document with the same report that flag different tokens (y, space / space, quotation mark) and have
+   different tokens before and after them get the same context — prequel ++ problem ++ sequel is
+   (break, y, space, quote, z) for both — so ignoring the first hides the second, whatever the hash *)
+Theorem only_refuted_flat :
   exists d l1 l2,
     doc_wf d /\ same_report l1 l2 /\ il_span l1 <> il_span l2 /\
-    nb_tokens l1 d <> nb_tokens l2 d /\ is_ok (nb_tokens l1 d) = true /\ is_ok (nb_tokens l2 d) = true /\
+    nb_parts l1 d <> nb_parts l2 d /\ is_ok (nb_parts l1 d) = true /\ is_ok (nb_parts l2 d) = true /\
+    window_tokens d (il_span l1) <> window_tokens d (il_span l2) /\
     context l1 d = context l2 d /\
     forall (hash : ctx -> N) s s1, ignore_lint context hash s l1 d = Ok s1 ->
       is_ignored context hash s1 l2 d = Ok true /\
       forall ls ls', remove_ignored context hash s1 ls d = Ok ls' -> ~ In l2 ls'.
 Proof.
-  exists f13o_d1, f13o_l1, f13o_l2.
-  assert (doc_wf f13o_d1) as Hwf by (apply doc_wfb_spec; vm_compute; reflexivity).
-  assert (context f13o_l1 f13o_d1 = context f13o_l2 f13o_d1) as Eq by (vm_compute; reflexivity).
+  exists flat_d, flat_l1, flat_l2.
+  assert (doc_wf flat_d) as Hwf by (apply doc_wfb_spec; vm_compute; reflexivity).
+  assert (context flat_l1 flat_d = context flat_l2 flat_d) as Eq by (vm_compute; reflexivity).
   split; [exact Hwf|]. split; [repeat split|]. split; [intros E; vm_compute in E; discriminate E|].
-  split; [apply res_toks_neq; vm_compute; reflexivity|]. split; [vm_compute; reflexivity|]. split; [vm_compute; reflexivity|].
+  split; [apply res_parts_neq; vm_compute; reflexivity|]. split; [vm_compute; reflexivity|]. split; [vm_compute; reflexivity|].
+  split; [apply res_toks_neq; vm_compute; reflexivity|].
   split; [exact Eq|].
   intros hash s s1 E1.
-  destruct (context_total f13o_l1 f13o_d1 Hwf) as [c Ec].
-  assert (is_ignored context hash s1 f13o_l2 f13o_d1 = Ok true) as Hign.
-  { apply (same_context_stays_ignored context hash s f13o_l1 f13o_d1 f13o_l2 f13o_d1 s1 [] s1 c Ec); [rewrite <- Eq; exact Ec | exact E1 | reflexivity]. }
+  destruct (context_total flat_l1 flat_d Hwf) as [c Ec].
+  assert (is_ignored context hash s1 flat_l2 flat_d = Ok true) as Hign.
+  { apply (same_context_stays_ignored context hash s flat_l1 flat_d flat_l2 flat_d s1 [] s1 c Ec); [rewrite <- Eq; exact Ec | exact E1 | reflexivity]. }
   split; [exact Hign|].
   intros ls ls' El Hin.
   destruct s1 as [|h0 s1']; [unfold is_ignored, hash_lint_context in Hign; rewrite <- Eq, Ec in Hign; cbn in Hign; discriminate|].
   cbn [remove_ignored] in El. apply (retain_spec context hash _ _ _ _ El) in Hin. destruct Hin as [_ [c2 [Ec2 Em]]].
   rewrite (is_ignored_spec context hash _ _ _ _ Ec2) in Hign. congruence.
-Qed.
-
-(* the repaired context tells the two apart *)
-Lemma f13o_fixed_differ : context_fixed f13o_l1 f13o_d1 <> context_fixed f13o_l2 f13o_d1.
-Proof. apply res_ctx_neq; vm_compute; reflexivity. Qed.
-(* and keeps the F12 / F13 stability witnesses ignored *)
-Lemma f12_fixed_same : context_fixed f12_l1 f12_d1 = context_fixed f12_l2 f12_d2.
-Proof. vm_compute. reflexivity. Qed.
-Lemma f13s_fixed_same : context_fixed f13s_l1 f13s_d1 = context_fixed f13s_l2 f13s_d2.
-Proof. vm_compute. reflexivity. Qed.
-
-(* ---------- F13e: the prequel window is dropped below offset 2 ---------- *)
-Lemma f13e_wf : doc_wf f13e_d1 /\ doc_wf f13e_d2.
-Proof. split; apply doc_wfb_spec; vm_compute; reflexivity. Qed.
-Lemma f13e_untouched : untouched f13e_l1 f13e_d1 f13e_l2 f13e_d2.
-Proof. split; [repeat split|]. eexists. split; vm_compute; reflexivity. Qed.
-Lemma f13e_contexts_differ : context f13e_l1 f13e_d1 <> context f13e_l2 f13e_d2.
-Proof. apply res_ctx_neq; vm_compute; reflexivity. Qed.
-Lemma f13e_fixed_same : context_fixed f13e_l1 f13e_d1 = context_fixed f13e_l2 f13e_d2.
-Proof. vm_compute. reflexivity. Qed.
-
-(* the lint starts at offset 1: no prequel window.  A paragraph is put in front (no token lands within
-   two characters of the lint): now there is a prequel window and it holds the `[` that was there all along *)
-Theorem stable_refuted_prequel :
-  exists l d l' d',
-    doc_wf d /\ doc_wf d' /\ untouched l d l' d' /\
-    (exists k, l' = shift_lint k l /\ skipn k (dsrc d') = dsrc d) /\
-    sstart (il_span l) = 1 /\
-    no_quote (match nb_tokens l d with Ok w => w | Panic _ => [] end) /\
-    context_fixed l d = context_fixed l' d' /\
-    exists c c', context l d = Ok c /\ context l' d' = Ok c' /\ c <> c' /\
-      forall hash : ctx -> N, hash c <> hash c' ->
-        exists s1, ignore_lint context hash [] l d = Ok s1 /\ is_ignored context hash s1 l' d' = Ok false.
-Proof.
-  exists f13e_l1, f13e_d1, f13e_l2, f13e_d2.
-  split; [apply f13e_wf|]. split; [apply f13e_wf|]. split; [apply f13e_untouched|].
-  split; [exists 33; split; vm_compute; reflexivity|]. split; [reflexivity|].
-  split; [vm_compute; repeat constructor; intros t; discriminate|].
-  split; [apply f13e_fixed_same|].
-  apply refutes; [apply f13e_contexts_differ | vm_compute; reflexivity | vm_compute; reflexivity].
 Qed.
